@@ -17,7 +17,7 @@ sys.path.insert(0, os.path.dirname(os.path.dirname(os.path.abspath(__file__))))
 from genlib import *
 
 LEAN_MODULES = ["MpirProofs.Props.C02_sb"]
-THEOREMS = ["Mpir.SbDiv.sb_div_qr_val", "Mpir.SbDiv.sb_div_qr_floor"]
+THEOREMS = ["Mpir.SbDiv.sb_div_qr_val", "Mpir.SbDiv.sb_div_qr_floor", "Mpir.SbDiv.sb_div_qr_contract"]
 PINS = [("mpn/generic/sb_div_qr.c", None), ("gmp-impl.h", "udiv_qr_3by2"), ("gmp-impl.h", "mpir_invert_pi1"),
         ("mpn/x86_64/longlong_inc.h", "sub_333")]
 TRUSTED = ["hand-written limb-level model of mpn_sb_div_qr in lean/Mpir/Model/SbDiv.lean (window form of the pointer walk; tied by correspondence on every run)"]
